@@ -106,6 +106,15 @@ def prefix_classes(rng, n, every):
     ks = {1, n - 1, n // 2, rng.randint(1, n - 1), rng.randint(1, n - 1)}
     return sorted(k for k in ks if 0 < k < n)
 
+# patterns CanonicalPath maps to something it would change again (a segment ending in a blank exposed by "..")
+UNSTABLE = ["/a /b/..", "/x/y /c/..", "/a\t/b/..", "/q /./r/.."]
+
+def unstable_cases(rng):
+    out = []
+    for p in UNSTABLE:
+        out.append([[0, [p, rng.choice(URLS[:4]), False]], [4], [5], [3]])
+    return out
+
 def crash_cases(ck, kind, n, gen):
     rng = ck.rng
     pre = []
@@ -125,7 +134,8 @@ def crash_cases(ck, kind, n, gen):
         oldf, newb = v
         ks = prefix_classes(rng, len(newb), ck.thorough and len(cases) % 10 == 0)
         cases.append([old, delta, ks, oldf, newb])
-    return cases
+    torn = [[c[0], c[1], [0] + c[2]] for c in cases if len(c[4]) > 1]
+    return cases, torn
 
 def run(ck):
     if not ck.prepare():
@@ -139,14 +149,48 @@ def run(ck):
     rcases = [gen_rops(rng, rng.randint(3, 40 if T else 16)) for _ in range(n)]
     ck.stream("route-histories", rcases, "C18_routes_run", "C18_routes", "C18_routes_ok",
               nontrivial=hist_nontrivial, sig=lambda c, e, o: "route-history")
-    m = 300 if T else 40
+    m = 300 if T else 24
     def gu(r, k): return gen_uops(r, k, restarts=False)
     def gr(r, k): return gen_rops(r, k, restarts=False)
     cn = lambda c: len(c[2]) >= 3 and len(c[3]) == 1
-    ck.stream("user-crash", crash_cases(ck, "u", m, gu), "C18_ucrash_run", "C18_ucrash", "C18_ucrash_ok",
-              nontrivial=cn, sig=lambda c, e, o: "user-crash", timeout=3000)
-    ck.stream("route-crash", crash_cases(ck, "r", m, gr), "C18_rcrash_run", "C18_rcrash", "C18_rcrash_ok",
-              nontrivial=cn, sig=lambda c, e, o: "route-crash", timeout=3000)
+    uc, ut = crash_cases(ck, "u", m, gu)
+    ck.stream("user-crash", uc, "C18_ucrash_run", "C18_ucrash", "C18_ucrash_ok",
+              nontrivial=cn, sig=lambda c, e, o: "user-crash", timeout=3000, sample=1)
+    rc, rt = crash_cases(ck, "r", m, gr)
+    ck.stream("route-crash", rc, "C18_rcrash_run", "C18_rcrash", "C18_rcrash_ok",
+              nontrivial=cn, sig=lambda c, e, o: "route-crash", timeout=3000, sample=1)
+    # the JSON laws (trusted base of the crash theorems) on the real decoder, and at the same time the
+    # states the pre-repair sequence OpenFile(O_TRUNC)+write could leave: empty / torn target => LoadAll fails
+    tn = lambda c: len(c[2]) >= 3
+    ck.stream("user-torn-file", ut, "C18_utorn_run", "C18_utorn", "C18_utorn_ok", nontrivial=tn,
+              sig=lambda c, e, o: "json-law-user", sample=1)
+    ck.stream("route-torn-file", rt, "C18_rtorn_run", "C18_rtorn", "C18_rtorn_ok", nontrivial=tn,
+              sig=lambda c, e, o: "json-law-route", sample=1)
+    # known finding, replayed every run: a pattern that is not stable under CanonicalPath changes on reload.
+    # The signature is given only when the implementation does exactly what the as-is model predicts.
+    ck.stream("route-reload-unstable-pattern", unstable_cases(rng), "C18_routes_run", "C18_routes", "C18_routes_ok",
+              sig=lambda c, e, o: "route-reload-noncanonical-stable" if e == o else "route-history", sample=1)
     return ck.finish(
-        rule="todo",
-        trusted=[], assumptions=[])
+        rule="(1) random histories of save/del/get/all/flush/restart on auth.* and route.* with the real JSON providers "
+             "on temporary files (names/patterns in several spellings aimed at existing keys, updates with and without "
+             "password change, admin flag with empty access lists, rejected URLs, flushes with nothing pending, restarts "
+             "with and without a preceding flush); the recorded provider.Flush arguments, what LoadAll sees after every "
+             "flush and the table after every restart are compared with the model and judged by ok_hist; non-trivial = "
+             ">= 2 saves, a delete and a flush followed by a restart.  (2) crash experiment: a first server writes the old "
+             "table (15% nothing on disk), a child process starts on it, applies a delta (7% nothing pending) and flushes; it "
+             "is killed (SIGKILL) at each hook point of EncodeJSONFile in turn; the directory after each death, plus the file "
+             "being written truncated to prefix classes {1, n/2, n-1, 2 random} (thorough: every length for each 10th case), is "
+             "compared byte for byte with the model's crash_states and loaded by a fresh provider: the result must be the "
+             "complete old or new table (crash_ok); the hook log must equal the model's operation names.  (3) the JSON laws on "
+             "the real decoder: the target overwritten with its own prefixes must not load.  (4) the known finding is replayed.",
+        trusted=["JSON (encoding/json Marshal+Indent / Unmarshal) is an oracle constrained by the laws roundtrip "
+                 "(decode (encode t) = Some t), prefix_safe (a strict prefix of an encoding does not decode to a different "
+                 "table) and empty_invalid (the empty file does not decode); all three are exercised on the implementation "
+                 "by the flush/restart and torn-file streams",
+                 "file-system semantics of Model/C18CrashFs.v: process death (written data is visible whether synced or "
+                 "not), rename is atomic, the temporary name is fresh; compared with the real directory after every kill",
+                 "url.Parse is an oracle (generator URLs + one rejected class, agreement checked through Save's result)"],
+        assumptions=["ASCII names and patterns (Go lower-cases runes; invalid UTF-8 is changed by json.Marshal)",
+                     "process death, not power loss: unsynced page cache and directory fsync are outside",
+                     "route patterns stable under CanonicalPath (guard rop_wf; the unstable class is a known finding)",
+                     "table files are written by Flush only (a hand-edited file with duplicate names is outside)"])
